@@ -212,7 +212,7 @@ def extra(tier, rng, workdir):
     # afterwards, and after a restart, the store is what a fault-free revert leaves
     rf_cases, rf_twins = [], []
     for tip, saved, t in ((2300, 2300, 1800), (2300, 2100, 1800), (3100, 3100, 1500), (1200, 1200, 700))[:3 if tier == "quick" else 4]:
-        for j in ([1, 2, 3, -1, -2, -3] if tier == "quick" else [1, 2, 3, 4, 5, -1, -2, -3, -4]):
+        for j in ([1, 2, 3, -1, -2, -3, -4] if tier == "quick" else [1, 2, 3, 4, 5, -1, -2, -3, -4, -5]):
             # j > 0: the j-th storage operation (the first are reads); j < 0: the |j|-th write / delete of the revert
             pre = [["addn", 1, saved], ["save"]] + ([["addn", saved + 1, tip - saved]] if tip > saved else [])
             post = [["lastheight"], ["lasthash"], ["files"], ["hash", t], ["load"], ["lastheight"], ["lasthash"], ["addn", 9001, 300],
@@ -226,9 +226,17 @@ def extra(tier, rng, workdir):
         ob = rr[k - 1]
         rf_fired += ob[1] if len(ob) > 1 else 0
         if ob[0] != 0:
-            failures.append({"suite": "revertfault", "checker": "revert_fault", "step": k - 1, "cfg": c["cfg"], "ops": c["ops"],
-                             "expected": [0], "observed": ob, "trace": rr,
-                             "what": "a revert that reported a storage fault could not be completed when tried again"})
+            # the revert reported the fault and cannot be repeated in this process (the node keeps the chain it had until
+            # it is restarted): the property then asks that a restart recovers a chain - every later restart, also after
+            # further syncing and a clean save, must load, and what it loads must be linked (ids = heights below the
+            # blocks added after the restart)
+            bad = next((i for i in range(k, len(rr)) if c["ops"][i][0] == "load" and rr[i] != [0]), None)
+            if bad is not None:
+                failures.append({"suite": "revertfault", "checker": "revert_fault", "step": bad, "cfg": c["cfg"], "ops": c["ops"],
+                                 "expected": [0], "observed": rr[bad], "trace": rr,
+                                 "what": "a revert during which storage operation %d failed could not be repeated, and after a restart, "
+                                         "further blocks and a clean save the store cannot be loaded any more (a file above the "
+                                         "removed ones was written again from the stale in-memory chain)" % c["ops"][k - 1][2]})
         elif rr[k:] != tr[k:]:
             d = next(i for i, (a, b) in enumerate(zip(rr[k:], tr[k:])) if a != b)
             failures.append({"suite": "revertfault", "checker": "revert_fault", "step": k + d, "cfg": c["cfg"], "ops": c["ops"],
